@@ -59,7 +59,9 @@ Definition r_axis (D : itree) (a : raxis) (n : nd) : list nd :=
   | RFollowing => filter (fun x => negb (is_prefix p (fst x))) (after p (all_nodes D))
   (* before the context node in document order, without its ancestors; reverse axis *)
   | RPreceding => filter (fun x => negb (is_prefix (fst x) p)) (rev (before p (all_nodes D)))
-  | RFollowingExt => filter (fun x => negb (is_prefix p (fst x)) || is_prefix p (fst x)) (after p (all_nodes D))
+  (* following U descendant for a node of the tree; the root node has no following nodes and gets none *)
+  | RFollowingExt => if is_doc n then []
+                     else filter (fun x => negb (is_prefix p (fst x)) || is_prefix p (fst x)) (after p (all_nodes D))
   | RPrecedingExt => filter (fun x => (negb (is_prefix (fst x) p) || is_prefix (fst x) p) && negb (is_doc x))
                        (rev (before p (all_nodes D)))
   end.
